@@ -26,6 +26,8 @@ OWNED = {
     "C08": ("C08_AtLeastOnce", "C08_NoDuplicateWhenHealthy", "C08_ReadyEventually"),
     "C11": ("C11_SilenceSurvivesRestart", "C11_NoRepeatAfterRestart"),
     "C01": ("C01_AtLeastOnce",),
+    "C17": ("C17_RejectedReloadKeepsConfig", "C17_StatusShowsConfigInForce", "C17_AcceptedReloadTakesEffect"),
+    "C07": ("C07_ReceiversAgree",),
 }
 
 # (configuration, timeout s, invariant that MUST be violated or None, tier)
@@ -33,6 +35,9 @@ MC = [("MC_AppSys.cfg", 120, None, "quick"), ("MC_AppSys_healthy.cfg", 120, None
       ("MC_AppSys_solo.cfg", 120, None, "quick"), ("MC_AppSys_solo_kill.cfg", 120, None, "quick"),
       ("MC_AppSys_defective.cfg", 120, "AtLeastOnce", "quick"), ("MC_AppSys_nosnap.cfg", 120, "SilenceSurvivesRestart", "quick"),
       ("MC_AppSys_nogossip.cfg", 120, "NoDuplicateWhenHealthy", "quick"), ("MC_AppSys_nosettle.cfg", 120, "ReadyEventually", "quick"),
+      ("MC_AppSys_reload.cfg", 120, None, "quick"), ("MC_AppSys_reload_stopfirst.cfg", 120, "AtLeastOnce", "quick"),
+      ("MC_AppSys_reload_apifirst.cfg", 120, "StatusShowsConfigInForce", "quick"), ("MC_AppSys_reload_apifirst_rcv.cfg", 120, "ReceiversAgree", "quick"),
+      ("MC_AppSys_reload_t.cfg", 900, None, "thorough"),
       ("MC_AppSys_order.cfg", 300, None, "thorough"), ("MC_AppSys_order_defective.cfg", 300, "AtLeastOnce", "thorough"),
       ("MC_AppSys_faults.cfg", 300, None, "thorough"), ("MC_AppSys_3.cfg", 600, None, "thorough"),
       ("MC_AppSys_solo_t.cfg", 600, None, "thorough"), ("MC_AppSys_solo_kill_t.cfg", 600, None, "thorough"),
@@ -42,11 +47,13 @@ MC_FOR = {"C08": ("MC_AppSys.cfg", "MC_AppSys_healthy.cfg", "MC_AppSys_defective
                   "MC_AppSys_order.cfg", "MC_AppSys_order_defective.cfg", "MC_AppSys_faults.cfg", "MC_AppSys_3.cfg", "MC_AppSys_faults_kill_t.cfg"),
           "C11": ("MC_AppSys_solo.cfg", "MC_AppSys_solo_kill.cfg", "MC_AppSys_nosnap.cfg", "MC_AppSys_solo_t.cfg", "MC_AppSys_solo_kill_t.cfg",
                   "MC_AppSys_faults.cfg", "MC_AppSys_faults_kill_t.cfg"),
-          "C01": ("MC_AppSys_solo.cfg", "MC_AppSys_defective.cfg", "MC_AppSys_solo_t.cfg")}
+          "C01": ("MC_AppSys_solo.cfg", "MC_AppSys_defective.cfg", "MC_AppSys_solo_t.cfg"),
+          "C17": ("MC_AppSys_reload.cfg", "MC_AppSys_reload_stopfirst.cfg", "MC_AppSys_reload_apifirst.cfg", "MC_AppSys_reload_t.cfg"),
+          "C07": ("MC_AppSys_reload.cfg", "MC_AppSys_reload_apifirst_rcv.cfg")}
 
-GEN = {"rule1": "Gen_AppSys_rule1.cfg", "rule": "Gen_AppSys_rule.cfg", "order": "Gen_AppSys_order.cfg", "solo": "Gen_AppSys_solo.cfg", "solo1": "Gen_AppSys_solo1.cfg", "two1": "Gen_AppSys_two1.cfg",
+GEN = {"rule1": "Gen_AppSys_rule1.cfg", "rule": "Gen_AppSys_rule.cfg", "order": "Gen_AppSys_order.cfg", "solo": "Gen_AppSys_solo.cfg", "solo1": "Gen_AppSys_solo1.cfg", "two1": "Gen_AppSys_two1.cfg", "reload": "Gen_AppSys_reload.cfg",
        "two": "Gen_AppSys_two.cfg", "three": "Gen_AppSys_three.cfg"}
-GEN_FOR = {"C08": ("rule1", "rule", "order", "two", "three"), "C11": ("solo1", "two1", "solo"), "C01": ("solo", "solo1")}
+GEN_FOR = {"C08": ("rule1", "rule", "order", "two", "three"), "C11": ("solo1", "two1", "solo"), "C01": ("solo", "solo1"), "C17": ("reload",), "C07": ("reload",)}
 
 
 def model_check(pid, tier, only=None):
@@ -98,7 +105,7 @@ def _gen(pid, name, cfg, out_path, num, seed, timeout):
     return out
 
 
-ENV = ("start", "stop", "kill", "post", "silence", "expire")
+ENV = ("start", "stop", "kill", "post", "silence", "expire", "reload")
 
 
 def features(h, horizon):
@@ -112,6 +119,7 @@ def features(h, horizon):
     silenced = {}       # (i, a) -> time
     downs = {}          # i -> (time, kind, sends before, silences before)
     restarted = {}      # i -> info of the stop that preceded the start
+    rejected, accepted, fresh, freshgood = {}, {}, {}, set()
     last_env = 0
     posted = False
     for k in range(1, len(h)):
@@ -166,6 +174,34 @@ def features(h, horizon):
             posted = True
             if len(e["to"]) < len([1 for l in prev["life"] if l == "up"]):
                 f.add("partial_post")
+        if op == "reload":
+            i, kind = e["i"], e["kind"]
+            f.add("reload_" + kind)
+            if e.get("ov"):
+                f.add("reload_overlapped")
+            if kind != "good":
+                rejected[i] = {"kind": kind, "c": e["c"], "had_delivery": any(j == i for (j, _) in sent_by), "held": set(prev["has"][i - 1])}
+                if prev["has"][i - 1] and kind == "badapply":
+                    f.add("alerts_shown_after_apply_refusal")      # API receivers vs groups can be compared (C07)
+            else:
+                rejected.pop(i, None)
+                accepted[i] = {"c": e["c"], "changed": e["c"] != prev["cfg"][i - 1]}
+        if op == "post":
+            for i in e["to"]:
+                if i in rejected and e["a"] not in rejected[i]["held"]:
+                    fresh[(i, e["a"])] = rejected[i]
+                    if rejected[i]["kind"] == "badapply":
+                        f.add("alerts_shown_after_apply_refusal")
+                if i in accepted and accepted[i]["changed"]:
+                    freshgood.add((i, e["a"]))
+        if op == "dedup" and e["sends"]:
+            i, a = e["i"], e["a"]
+            if (i, a) in fresh:
+                f.add("fresh_alert_after_refused_" + fresh[(i, a)]["kind"])      # the old routing must still work
+                if fresh[(i, a)]["had_delivery"]:
+                    f.add("fresh_alert_after_refused_%s_with_earlier_delivery" % fresh[(i, a)]["kind"])
+            if (i, a) in freshgood:
+                f.add("fresh_alert_after_accepted_reload")
         if op == "timeout":
             f.add("flush_timeout")
         if op == "settled":
@@ -180,6 +216,9 @@ QUOTA = {   # feature, share of the cases
     "C08": [("deadline_rule", 0.3), ("nodup", 0.3), ("late_start", 0.1), ("stop", 0.1), ("kill", 0.1), ("flush_before_ready", 0.1)],
     "C11": [("norepeat", 0.3), ("silence_restart", 0.3), ("norepeat_kill", 0.15), ("silence_restart_kill", 0.15), ("restart", 0.1)],
     "C01": [("solo", 1.0), ("expire", 0.2), ("restart", 0.3)],
+    "C17": [("fresh_alert_after_refused_badapply_with_earlier_delivery", 0.4), ("reload_overlapped", 0.3), ("fresh_alert_after_refused_badload", 0.15),
+            ("fresh_alert_after_accepted_reload", 0.25)],
+    "C07": [("alerts_shown_after_apply_refusal", 0.8), ("fresh_alert_after_accepted_reload", 0.2)],
 }
 
 
@@ -308,7 +347,7 @@ def run_app_system(pid, tier, v):
     seed = vlib.seed()
     t0 = time.time()
     horizon = 40 if thorough else 22
-    total = {"C08": 90, "C11": 60, "C01": 36}[pid] if thorough else {"C08": 10, "C11": 8, "C01": 5}[pid]
+    total = {"C08": 90, "C11": 60, "C01": 36, "C17": 60, "C07": 40}[pid] if thorough else {"C08": 10, "C11": 8, "C01": 5, "C17": 8, "C07": 5}[pid]
     num = 1200 if thorough else 200
     # build, model checking and generation side by side
     with concurrent.futures.ThreadPoolExecutor(max_workers=3) as ex:
@@ -359,7 +398,9 @@ def run_app_system(pid, tier, v):
         if inc > 0.25 * cases:
             why = ["%s: %s" % (k, "; ".join(x)[:300]) for k, x in list(doubts.items())[:6]]
             raise vlib.Inconclusive("whole program: %d of %d scenarios inconclusive: %s | %s" % (inc, cases, " | ".join(why), "; ".join(r.get("notes") or [])[:1200]))
-        need = {"C08": ["deadline_rule", "nodup"], "C11": ["norepeat", "silence_restart"], "C01": ["solo"]}[pid]
+        need = {"C08": ["deadline_rule", "nodup"], "C11": ["norepeat", "silence_restart"], "C01": ["solo"],
+                "C17": ["fresh_alert_after_refused_badapply_with_earlier_delivery", "reload_overlapped", "fresh_alert_after_accepted_reload"],
+                "C07": ["alerts_shown_after_apply_refusal"]}[pid]
         missing = [k for k in need if not shape.get(k)]
         if missing or not c.get("deliveries"):
             raise vlib.Inconclusive("whole program: the replayed scenarios never reached: %s (deliveries %s)" % (missing, c.get("deliveries")))
@@ -371,6 +412,9 @@ def run_app_system(pid, tier, v):
         "steps": r["steps"],
         "instance_starts": c.get("op_start", 0), "clean_stops": c.get("op_stop", 0), "kills": c.get("op_kill", 0),
         "posts": c.get("op_post", 0), "silences": c.get("op_silence", 0), "silence_expiries": c.get("op_expire", 0),
+        "reloads": {"accepted_kind": c.get("op_reload_good", 0), "refused_by_load": c.get("op_reload_badload", 0),
+                    "refused_at_apply": c.get("op_reload_badapply", 0), "overlapped_by_status_requests": c.get("op_reload_overlapped", 0),
+                    "status_requests_overlapping": c.get("status_requests_overlapping_reloads", 0)},
         "webhook_deliveries": c.get("deliveries", 0),
         "runs_agreeing_with_model_deliveries": c.get("model_agreement", 0),
         "runs_drifting_from_model_deliveries": c.get("model_drift", 0),
